@@ -541,6 +541,58 @@ def Safe_search (b : Bitmap) (key : Nat) : Prop :=
 
 instance (b : Bitmap) (key : Nat) : Decidable (Safe_search b key) := by unfold Safe_search; infer_instance
 
+/-- one `let index = self.find_container_by_key(key); self.containers[index].insert_range(s..=e)` step of
+    `insert_range` (inherent.rs:243+248, :260+263, :270+272) -/
+def Safe_insertRangeAt (b : Bitmap) (key s e : Nat) : Prop :=
+  Safe_findContainerByKey b key                                             -- the index is valid
+  ∧ (match (findContainerByKey b key).1[(findContainerByKey b key).2]? with
+     | some c => c.Safe_insertRange s e                                     -- container.rs:59-69 and below
+     | none => False)
+
+instance (b : Bitmap) (key s e : Nat) : Decidable (Safe_insertRangeAt b key s e) := by
+  unfold Safe_insertRangeAt
+  refine @instDecidableAnd _ _ _ ?_
+  split <;> infer_instance
+
+/-- the `for i in start_container_key..end_container_key` loop of `insert_range` (inherent.rs:259-267) followed by the
+    last container (:270-272), on the state `(containers, low, inserted)` of `Bitmap.insertRange` -/
+def Safe_insertRangeLoop (ek ei : Nat) : List Nat → Bitmap × Nat × Nat → Prop
+  | [], st =>
+    Safe_insertRangeAt st.1 ek 0 ei                                         -- :270 :272
+    ∧ U64 (st.2.2 + (let r := findContainerByKey st.1 ek
+                     (modifyAt r.1 r.2 (fun c => c.insertRange 0 ei) 0).2))   -- :272 `inserted += …`
+  | i :: ks, st =>
+    let r := findContainerByKey st.1 i
+    let m := modifyAt r.1 r.2 (fun c => c.insertRange st.2.1 65535) 0
+    Safe_insertRangeAt st.1 i st.2.1 65535                                  -- :260 :263
+    ∧ U64 (st.2.2 + m.2)                                                    -- :263 `inserted += …`
+    ∧ Safe_insertRangeLoop ek ei ks (m.1, 0, st.2.2 + m.2)
+
+instance (ek ei : Nat) : ∀ (ks : List Nat) (st : Bitmap × Nat × Nat), Decidable (Safe_insertRangeLoop ek ei ks st)
+  | [], st => by unfold Safe_insertRangeLoop; infer_instance
+  | i :: ks, st => by
+    unfold Safe_insertRangeLoop
+    have := fun st' => instDecidableSafe_insertRangeLoop ek ei ks st'
+    infer_instance
+
+/-- inherent.rs:230-275 `insert_range`, the whole method -/
+def Safe_insertRange (b : Bitmap) (lo hi : Bound) : Prop :=
+  match convertRange u32Max lo hi with
+  | .error _ => True
+  | .ok (start, en) =>
+    let sk := hi16 start; let si := lo16 start
+    let ek := hi16 en; let ei := lo16 en
+    Safe_split start ∧ Safe_split en                                        -- :239 :240 `util::split`
+    ∧ (if sk = ek then Safe_insertRangeAt b sk si ei                        -- :243 :248
+       else
+         sk ≤ ek                                                            -- :259 the `u16` range `start_container_key..end_container_key`
+         ∧ Safe_findContainerByKey b sk                                     -- :243
+         ∧ Safe_insertRangeLoop ek ei (List.range' sk (ek - sk)) ((findContainerByKey b sk).1, si, 0))
+
+instance (b : Bitmap) (lo hi : Bound) : Decidable (Safe_insertRange b lo hi) := by
+  unfold Safe_insertRange
+  split <;> infer_instance
+
 /-- inherent.rs:230-275 `insert_range`: the `u64` counter (:263 :272 `inserted += …`; partial sums are monotone) -/
 def Safe_insertRangeCount (b : Bitmap) (lo hi : Bound) : Prop := U64 (insertRange b lo hi).2
 
